@@ -481,25 +481,22 @@ Proof.
   eapply calc_range_not_ref; eauto.
 Qed.
 
-Theorem C06_move_local_ident h mv w w' r m :
-  TablesOK T check_fn -> Inv06 T check_fn w ->
-  e_move_element_here T tab_en check_fn LATEST h mv w = Val (OK r, w') ->
-  model_of h w = Val (OK m, w) -> model_of mv w = Val (OK m, w) ->
-  identifiable T w mv = true ->
-  (* (1) every reference of the model that designated the moved element or an element below it still designates the
-         same element object (also when make_unique_item_name gave the moved element a new name) *)
+(* the three clauses of the property from the effect computed by move_local_ident *)
+Definition follow_clauses (w w' : world) (m : N) (mv : id) : Prop :=
   (forall rf x, live_ref T w m rf -> designates T w m rf x -> below T w mv x -> designates T w' m rf x) /\
-  (* (2) a reference that resolves to an element outside the moved subtree keeps its text *)
   (forall rf p, ref_text T w rf = Some p -> resolves T w m rf ->
                 ~ (exists x, designates T w m rf x /\ below T w mv x) -> ref_text T w' rf = Some p) /\
-  (* (3) a reference keeps its text unless it is a reference of this model whose text is the old path of the moved
-         element or lies below it at a '/' boundary *)
   (forall rf p src, SpecPath T w m mv src -> ref_text T w rf = Some p ->
                     ~ (live_ref T w m rf /\ old_form src p) -> ref_text T w' rf = Some p).
+
+Lemma follow_of_local h mv pos m version w w' r :
+  Inv06 T check_fn w ->
+  move_element_local T check_fn h mv pos m version w = Val (OK r, w') ->
+  model_of mv w = Val (OK m, w) -> identifiable T w mv = true ->
+  (forall n, w_nodes w h = Some n -> isref T (n_type n) = false) ->
+  follow_clauses w w' m mv.
 Proof.
-  intros TK HI H Hmh Hmm Hid.
-  destruct (e_move_here_local _ _ _ _ _ _ TK H Hmh Hmm) as [->|(pos & version & Hml & Hnr)].
-  { split; [|split]; auto. }
+  intros HI Hml Hmm Hid Hnr.
   pose proof HI as (HT & H4 & H5).
   assert (HRmv : MReach T w m mv) by (apply model_of_mreach; assumption).
   destruct (move_local_ident h mv pos m version w w' r HI Hml HRmv Hid Hnr)
@@ -533,6 +530,62 @@ Proof.
     apply (Ht2 rf p Hr).
     destruct (rekey src dest p) as [p'|] eqn:Erk; [|right; reflexivity].
     left. intros Hl. apply Hnot. split; [exact Hl|]. apply (old_form_rekey src dest). eauto.
+Qed.
+
+(* a call that changes neither the models nor any node that carries a reference text *)
+Lemma follow_of_same_refs w w' m mv :
+  w_models w' = w_models w -> (forall rf p, ref_text T w rf = Some p -> ref_text T w' rf = Some p) ->
+  follow_clauses w w' m mv.
+Proof.
+  intros Hm Hr. split; [|split]; auto.
+  intros rf x _ (xm & p & Hxm & Hrp & Hp) _. exists xm, p. split; [unfold model_at in *; rewrite Hm; exact Hxm|]. auto.
+Qed.
+
+Theorem C06_move_local_ident h mv w w' r m :
+  TablesOK T check_fn -> Inv06 T check_fn w ->
+  e_move_element_here T tab_en check_fn LATEST h mv w = Val (OK r, w') ->
+  model_of h w = Val (OK m, w) -> model_of mv w = Val (OK m, w) ->
+  identifiable T w mv = true ->
+  follow_clauses w w' m mv.
+Proof.
+  intros TK HI H Hmh Hmm Hid.
+  destruct (e_move_here_local _ _ _ _ _ _ TK H Hmh Hmm) as [->|(pos & version & Hml & Hnr)].
+  { apply follow_of_same_refs; auto. }
+  eapply follow_of_local; eauto.
+Qed.
+
+(* move_element_here_at: additionally the re-positioning inside the same parent, which rewrites one content list *)
+Theorem C06_move_at_local_ident h mv pos w w' r m :
+  TablesOK T check_fn -> Inv06 T check_fn w ->
+  e_move_element_here_at T tab_en check_fn LATEST h mv pos w = Val (OK r, w') ->
+  model_of h w = Val (OK m, w) -> model_of mv w = Val (OK m, w) ->
+  identifiable T w mv = true ->
+  follow_clauses w w' m mv.
+Proof.
+  intros TK HI H Hmh Hmm Hid. unfold e_move_element_here_at in H.
+  destruct (h =? mv); [discriminate H|].
+  wk H. wk H. assert (a = m) by congruence. assert (a0 = m) by congruence. subst a a0.
+  wk H. wk H. destruct (negb (a0 =? a)); [discriminate H|].
+  wk H. apply get_node_inv in E3 as (n & Hn & Q & _). injection Q as ->.
+  wk H. apply get_node_inv in E3 as (mn & Hmn & Q & _). injection Q as ->.
+  wk H. destruct a1 as (rs, re).
+  assert (Hnr : forall n0, w_nodes w h = Some n0 -> isref T (n_type n0) = false).
+  { intros n0 Hn0. assert (n0 = n) by congruence. subst n0. eapply calc_range_not_ref; eauto. }
+  destruct ((rs <=? pos) && (pos <=? re)); [|discriminate H]. rewrite N.eqb_refl in H.
+  wk H. destruct a1 as [p|]; [|discriminate H].
+  destruct (p =? h).
+  - (* same parent: only the content list of h is permuted *)
+    unfold move_element_position in H. wk H.
+    match goal with E : get_node h w = Val _ |- _ => apply get_node_inv in E as (n0 & Hn0 & Q & _) end. injection Q as ->.
+    assert (n0 = n) by congruence. subst n0.
+    destruct (pos <? re); [|discriminate H].
+    destruct (index_of (citem_is mv) (n_content n)) as [cur|]; [|discriminate H].
+    wk H. match goal with E : set_node _ _ _ = Val _ |- _ => apply set_node_inv in E as (_ & ->) end.
+    apply wret_inv in H as (_ & ->).
+    apply follow_of_same_refs; [reflexivity|].
+    intros rf p0 Hr. rewrite <- Hr. apply ref_text_node. cbn [w_nodes]. apply upd_neq. intros ->.
+    destruct (ref_text_content w h p0 n Hr Hn) as (_ & Hc). rewrite (Hnr n Hn) in Hc. discriminate Hc.
+  - eapply follow_of_local; eauto.
 Qed.
 
 End Move.
